@@ -209,7 +209,7 @@ scpi_bool_t SCPI_Parse(scpi_t * context, char * data, int len) {
     while (1) {
         r = scpiParser_detectProgramMessageUnit(state, data, len);
 
-        if (state->programHeader.type == SCPI_TOKEN_INVALID) {
+        if (state->programHeader.type == SCPI_TOKEN_INVALID || state->programData.type == SCPI_TOKEN_INVALID) {
             SCPI_ErrorPush(context, SCPI_ERROR_INVALID_CHARACTER);
             result = FALSE;
         } else if (state->programHeader.len > 0) {
@@ -1452,6 +1452,10 @@ int scpiParser_detectProgramMessageUnit(scpi_parser_state_t * state, char * buff
     if (scpiLex_ProgramHeader(&lex_state, &state->programHeader) >= 0) {
         if (scpiLex_WhiteSpace(&lex_state, &tmp) > 0) {
             scpiParser_parseAllProgramData(&lex_state, &state->programData, &state->numberOfParameters);
+            if (state->numberOfParameters < 0 && lex_state.pos != state->programData.ptr) {
+                /* the list ends with a separator, it is not program data */
+                state->programData.type = SCPI_TOKEN_INVALID;
+            }
         } else {
             invalidateToken(&state->programData, lex_state.pos);
         }
